@@ -48,9 +48,14 @@ fn ref_sharks(b: &[u8], o: usize, n: usize) -> Option<usize> {
         return None;
     }
     let cnt = n / 24;
+    // explicit cap: the harness buffers hold at most 10 elements (keeps the loop bound
+    // decidable for the model checker; larger counts cannot occur within the buffer)
+    if cnt > 10 {
+        return None;
+    }
     let mut i = 0;
-    while i < cnt {
-        if !elem_ok(b, o + 24 * i) {
+    while i < 10 {
+        if i < cnt && !elem_ok(b, o + 24 * i) {
             return None;
         }
         i += 1;
@@ -58,71 +63,72 @@ fn ref_sharks(b: &[u8], o: usize, n: usize) -> Option<usize> {
     Some(cnt)
 }
 
-/// Reference for an ADSS share inside b[o..end]; writes the canonical re-encoding to
-/// `out` and returns its length.
-fn ref_share(b: &[u8], o: usize, end: usize, out: &mut [u8]) -> Option<usize> {
+/// Reference acceptance predicate for an ADSS share occupying b[o..end]
+fn ref_share_ok(b: &[u8], o: usize, end: usize) -> bool {
     if end < o || end - o < 4 {
-        return None;
+        return false;
     }
-    let (so, sn) = chunk(b, o + 4, end)?;
-    let (co, cn) = chunk(b, so + sn, end)?;
-    let (d_o, dn) = chunk(b, co + cn, end)?;
-    let jo = d_o + dn;
-    if end - jo != 64 {
-        return None;
-    }
-    let cnt = ref_sharks(b, so, sn)?;
-    let mut w = 0;
-    let mut put = |src: usize, len: usize, w: &mut usize, out: &mut [u8]| {
-        let mut i = 0;
-        while i < len {
-            out[*w] = b[src + i];
-            *w += 1;
-            i += 1;
-        }
+    let (so, sn) = match chunk(b, o + 4, end) {
+        Some(x) => x,
+        None => return false,
     };
-    put(o, 4, &mut w, out);
-    let sl = (24 * cnt) as u32;
-    let slb = sl.to_le_bytes();
-    out[w] = slb[0];
-    out[w + 1] = slb[1];
-    out[w + 2] = slb[2];
-    out[w + 3] = slb[3];
-    w += 4;
-    put(so, 24 * cnt, &mut w, out);
-    put(co - 4, 4 + cn, &mut w, out);
-    put(d_o - 4, 4 + dn, &mut w, out);
-    put(jo, 64, &mut w, out);
-    Some(w)
+    let (co, cn) = match chunk(b, so + sn, end) {
+        Some(x) => x,
+        None => return false,
+    };
+    let (d_o, dn) = match chunk(b, co + cn, end) {
+        Some(x) => x,
+        None => return false,
+    };
+    if end - (d_o + dn) != 64 {
+        return false;
+    }
+    ref_sharks(b, so, sn).is_some()
+}
+/// Reference acceptance predicate for a report: chunk(ciphertext) chunk(share) chunk(tag),
+/// trailing bytes ignored
+fn ref_message_ok(b: &[u8], n: usize) -> bool {
+    let (co, cn) = match chunk(b, 0, n) {
+        Some(x) => x,
+        None => return false,
+    };
+    let (so, sn) = match chunk(b, co + cn, n) {
+        Some(x) => x,
+        None => return false,
+    };
+    if !ref_share_ok(b, so, so + sn) {
+        return false;
+    }
+    chunk(b, so + sn, n).is_some()
 }
 
-// ---------------------------------------------------------------------------
-// star_sharks::Share
-// ---------------------------------------------------------------------------
-fn sharks_vs_ref<const N: usize>() {
+// ---- accept / reject agreement over all byte strings of a length ------------------
+fn sharks_accept<const N: usize>() {
     let b: [u8; N] = kani::any();
     let r = star_sharks::Share::try_from(&b[..]);
     let want = ref_sharks(&b, 0, N);
     assert!(r.is_ok() == want.is_some(), "accept/reject agrees with the reference parser");
     if let Ok(s) = &r {
-        let cnt = want.unwrap();
-        assert!(s.y.len() + 1 == cnt, "number of elements");
-        let e: Vec<u8> = Vec::from(s);
-        assert!(e.len() == 24 * cnt, "re-encoding drops only the ignored tail");
-        let mut i = 0;
-        while i < 24 * cnt {
-            assert!(e[i] == b[i], "re-encoding is the canonical prefix of the input");
-            i += 1;
-        }
-        // decoding the re-encoding gives an equal value
-        let r2 = star_sharks::Share::try_from(&e[..]);
-        assert!(r2.is_ok() && r2.as_ref().unwrap() == s, "round trip");
-        kani::cover!(true, "accepted");
-        core::mem::forget(e);
-        core::mem::forget(r2);
-    } else {
-        kani::cover!(true, "rejected");
+        assert!(s.y.len() + 1 == want.unwrap(), "number of decoded elements");
     }
+    kani::cover!(r.is_ok(), "accepted");
+    kani::cover!(r.is_err(), "rejected");
+    core::mem::forget(r);
+}
+fn share_accept<const N: usize>() {
+    let b: [u8; N] = kani::any();
+    let r = sta_rs::Share::from_bytes(&b[..]);
+    assert!(r.is_some() == ref_share_ok(&b, 0, N), "accept/reject agrees with the reference parser");
+    kani::cover!(r.is_some(), "accepted");
+    kani::cover!(r.is_none(), "rejected");
+    core::mem::forget(r);
+}
+fn message_accept<const N: usize>() {
+    let b: [u8; N] = kani::any();
+    let r = sta_rs::Message::from_bytes(&b[..]);
+    assert!(r.is_some() == ref_message_ok(&b, N), "accept/reject agrees with the reference parser");
+    kani::cover!(r.is_some(), "accepted");
+    kani::cover!(r.is_none(), "rejected");
     core::mem::forget(r);
 }
 macro_rules! lens8 {
@@ -130,105 +136,133 @@ macro_rules! lens8 {
         $( dec_stubs! { #[kani::unwind(5)] fn $name() { $f::<$n>() } } )*
     };
 }
-lens8!(sharks_vs_ref, c08_sharks_23 = 23, c08_sharks_24 = 24, c08_sharks_47 = 47, c08_sharks_48 = 48,
-       c08_sharks_50 = 50, c08_sharks_72 = 72);
+lens8!(sharks_accept, c08_sharks_accept_23 = 23, c08_sharks_accept_24 = 24, c08_sharks_accept_47 = 47,
+       c08_sharks_accept_48 = 48, c08_sharks_accept_50 = 50, c08_sharks_accept_72 = 72);
+lens8!(share_accept, c08_share_accept_8 = 8, c08_share_accept_103 = 103, c08_share_accept_104 = 104,
+       c08_share_accept_106 = 106, c08_share_accept_128 = 128, c08_share_accept_130 = 130);
+lens8!(message_accept, c08_message_accept_12 = 12, c08_message_accept_115 = 115, c08_message_accept_116 = 116,
+       c08_message_accept_120 = 120, c08_message_accept_144 = 144);
 
-// ---------------------------------------------------------------------------
-// adss::Share / sta_rs::Share
-// ---------------------------------------------------------------------------
-fn share_vs_ref<const N: usize>() {
-    let b: [u8; N] = kani::any();
-    let r = sta_rs::Share::from_bytes(&b[..]);
-    let mut canon = [0u8; N];
-    let want = ref_share(&b, 0, N, &mut canon);
-    assert!(r.is_some() == want.is_some(), "accept/reject agrees with the reference parser");
+// ---- canonical re-encoding and round trip for concrete shapes -----------------------
+fn put32(buf: &mut [u8], o: usize, v: usize) {
+    let b = (v as u32).to_le_bytes();
+    buf[o] = b[0];
+    buf[o + 1] = b[1];
+    buf[o + 2] = b[2];
+    buf[o + 3] = b[3];
+}
+/// writes a share with Shamir part of `sn` bytes, C of `cn`, D of `dn` bytes (all contents
+/// symbolic, all length headers exactly as stated) at buf[o..]; returns its length
+fn build_share(buf: &mut [u8; 240], o: usize, sn: usize, cn: usize, dn: usize) -> usize {
+    let body: [u8; 240] = kani::any();
+    let n = 4 + 4 + sn + 4 + cn + 4 + dn + 64;
+    let mut i = 0;
+    while i < n {
+        buf[o + i] = body[i];
+        i += 1;
+    }
+    put32(buf, o + 4, sn);
+    put32(buf, o + 8 + sn, cn);
+    put32(buf, o + 12 + sn + cn, dn);
+    n
+}
+/// expected canonical form of a share built by `build_share`: the Shamir part is cut to
+/// whole elements and its length prefix adjusted; nothing else changes
+fn check_share_canon(e: &[u8], buf: &[u8; 240], o: usize, sn: usize, cn: usize, dn: usize) {
+    let sk = 24 * (sn / 24);
+    let n = 4 + 4 + sk + 4 + cn + 4 + dn + 64;
+    assert!(e.len() == n, "canonical length");
+    // one arbitrary position stands for all positions
+    let k: usize = kani::any();
+    kani::assume(k < n);
+    let skb = (sk as u32).to_le_bytes();
+    let want = if k < 4 {
+        buf[o + k] // threshold bytes unchanged
+    } else if k < 8 {
+        skb[k - 4] // Shamir length prefix adjusted to whole elements
+    } else if k < 8 + sk {
+        buf[o + k] // field elements unchanged
+    } else {
+        buf[o + 8 + sn + (k - 8 - sk)] // C, D, J and their prefixes unchanged
+    };
+    assert!(e[k] == want, "re-encoding is the canonical form of the input (ignored bytes dropped, prefix adjusted, nothing else changed)");
+}
+fn share_canon(sn: usize, cn: usize, dn: usize) {
+    let mut buf = [0u8; 240];
+    let n = build_share(&mut buf, 0, sn, cn, dn);
+    let r = sta_rs::Share::from_bytes(&buf[..n]);
+    let ok = ref_sharks(&buf, 8, sn).is_some();
+    assert!(r.is_some() == ok, "a structurally valid share is accepted iff its field elements are canonical");
     if let Some(s) = &r {
-        let n = want.unwrap();
         let e = s.to_bytes();
-        assert!(e.len() == n, "canonical length");
-        let mut i = 0;
-        while i < n {
-            assert!(e[i] == canon[i], "re-encoding is the canonical form of the input");
-            i += 1;
-        }
+        check_share_canon(&e, &buf, 0, sn, cn, dn);
+        kani::cover!(true, "accepted");
+        core::mem::forget(e);
+    }
+    core::mem::forget(r);
+}
+/// decode(encode(v)) == v for the value decoded from a structurally valid share
+fn share_roundtrip(sn: usize, cn: usize, dn: usize) {
+    let mut buf = [0u8; 240];
+    let n = build_share(&mut buf, 0, sn, cn, dn);
+    let r = sta_rs::Share::from_bytes(&buf[..n]);
+    if let Some(s) = &r {
+        let e = s.to_bytes();
         let r2 = sta_rs::Share::from_bytes(&e[..]);
-        assert!(r2.is_some() && r2.as_ref().unwrap() == s, "round trip");
+        assert!(r2.is_some(), "the encoding of a share decodes");
+        assert!(r2.as_ref().unwrap() == s, "decode(encode(v)) == v");
         kani::cover!(true, "accepted");
-        core::mem::forget(e);
-        core::mem::forget(r2);
-    } else {
-        kani::cover!(true, "rejected");
+        core::mem::forget((e, r2));
     }
     core::mem::forget(r);
 }
-lens8!(share_vs_ref, c08_share_8 = 8, c08_share_103 = 103, c08_share_104 = 104, c08_share_106 = 106,
-       c08_share_128 = 128, c08_share_130 = 130);
+dec_stubs! { #[kani::unwind(5)] fn c08_share_roundtrip_48_4_4() { share_roundtrip(48, 4, 4) } }
+dec_stubs! { #[kani::unwind(5)] fn c08_share_roundtrip_24_0_0() { share_roundtrip(24, 0, 0) } }
+dec_stubs! { #[kani::unwind(5)] fn c08_share_canon_24_0_0() { share_canon(24, 0, 0) } }
+dec_stubs! { #[kani::unwind(5)] fn c08_share_canon_48_4_4() { share_canon(48, 4, 4) } }
+dec_stubs! { #[kani::unwind(5)] fn c08_share_canon_50_1_3() { share_canon(50, 1, 3) } }
+dec_stubs! { #[kani::unwind(5)] fn c08_share_canon_72_32_32() { share_canon(72, 32, 32) } }
 
-// ---------------------------------------------------------------------------
-// sta_rs::Message
-// ---------------------------------------------------------------------------
-fn message_vs_ref<const N: usize>() {
-    let b: [u8; N] = kani::any();
-    let r = sta_rs::Message::from_bytes(&b[..]);
-    // reference: chunk(ciphertext) chunk(share) chunk(tag) [trailing bytes ignored]
-    let mut canon = [0u8; N];
-    let mut want: Option<usize> = None;
-    if let Some((co, cn)) = chunk(&b, 0, N) {
-        if let Some((so, sn)) = chunk(&b, co + cn, N) {
-            let mut sc = [0u8; N];
-            if let Some(sl) = ref_share(&b, so, so + sn, &mut sc) {
-                if let Some((to, tn)) = chunk(&b, so + sn, N) {
-                    let mut w = 0;
-                    let mut i = 0;
-                    while i < 4 + cn {
-                        canon[w] = b[co - 4 + i];
-                        w += 1;
-                        i += 1;
-                    }
-                    let slb = (sl as u32).to_le_bytes();
-                    canon[w] = slb[0];
-                    canon[w + 1] = slb[1];
-                    canon[w + 2] = slb[2];
-                    canon[w + 3] = slb[3];
-                    w += 4;
-                    let mut i = 0;
-                    while i < sl {
-                        canon[w] = sc[i];
-                        w += 1;
-                        i += 1;
-                    }
-                    let mut i = 0;
-                    while i < 4 + tn {
-                        canon[w] = b[to - 4 + i];
-                        w += 1;
-                        i += 1;
-                    }
-                    want = Some(w);
-                }
-            }
-        }
+/// report = chunk(ciphertext of cl bytes) chunk(share) chunk(tag of tl bytes) + `extra`
+/// ignored trailing bytes
+fn message_canon(cl: usize, sn: usize, cn: usize, dn: usize, tl: usize, extra: usize) {
+    let mut buf = [0u8; 240];
+    let pre: [u8; 240] = kani::any();
+    let mut i = 0;
+    while i < 240 {
+        buf[i] = pre[i];
+        i += 1;
     }
-    assert!(r.is_some() == want.is_some(), "accept/reject agrees with the reference parser");
+    put32(&mut buf, 0, cl);
+    let so = 4 + cl + 4;
+    let sl = build_share(&mut buf, so, sn, cn, dn);
+    put32(&mut buf, so - 4, sl);
+    put32(&mut buf, so + sl, tl);
+    let n = so + sl + 4 + tl + extra;
+    let r = sta_rs::Message::from_bytes(&buf[..n]);
+    let ok = ref_sharks(&buf, so + 8, sn).is_some();
+    assert!(r.is_some() == ok, "a structurally valid report is accepted iff its field elements are canonical");
     if let Some(m) = &r {
-        let n = want.unwrap();
         let e = m.to_bytes();
-        assert!(e.len() == n, "canonical length");
-        let mut i = 0;
-        while i < n {
-            assert!(e[i] == canon[i], "re-encoding is the canonical form of the input");
-            i += 1;
-        }
-        let r2 = sta_rs::Message::from_bytes(&e[..]);
-        assert!(r2.is_some() && r2.as_ref().unwrap() == m, "round trip");
+        let sk = 24 * (sn / 24);
+        let slc = sl - (sn - sk);
+        assert!(e.len() == 4 + cl + 4 + slc + 4 + tl, "canonical length: ignored bytes dropped");
+        let k: usize = kani::any();
+        kani::assume(k < 4 + cl);
+        assert!(e[k] == buf[k], "ciphertext chunk unchanged");
+        assert!(le32(&e, 4 + cl) == slc, "share length prefix adjusted");
+        check_share_canon(&e[so..so + slc], &buf, so, sn, cn, dn);
+        let k2: usize = kani::any();
+        kani::assume(k2 < 4 + tl);
+        assert!(e[so + slc + k2] == buf[so + sl + k2], "tag chunk unchanged");
         kani::cover!(true, "accepted");
         core::mem::forget(e);
-        core::mem::forget(r2);
-    } else {
-        kani::cover!(true, "rejected");
     }
     core::mem::forget(r);
 }
-lens8!(message_vs_ref, c08_message_12 = 12, c08_message_115 = 115, c08_message_116 = 116, c08_message_120 = 120);
+dec_stubs! { #[kani::unwind(5)] fn c08_message_canon_0_24_0_0_0_0() { message_canon(0, 24, 0, 0, 0, 0) } }
+dec_stubs! { #[kani::unwind(5)] fn c08_message_canon_3_48_4_4_32_0() { message_canon(3, 48, 4, 4, 32, 0) } }
+dec_stubs! { #[kani::unwind(5)] fn c08_message_canon_3_50_1_3_4_2() { message_canon(3, 50, 1, 3, 4, 2) } }
 
 // ---------------------------------------------------------------------------
 // chunk helpers against the reference on large buffers (length headers up to 2^17)
@@ -282,17 +316,60 @@ fn c08_store_bytes_256() { store_ref::<256>() }
 #[kani::unwind(4)]
 fn c08_store_bytes_300() { store_ref::<300>() }
 
-dec_stubs! { #[kani::unwind(5)] fn probe_vec_from_share() {
-    let x: [u64; 3] = kani::any();
-    kani::assume(limbs_lt_p(&x));
-    let s = star_sharks::Share { x: fp_from_limbs(x), y: vec![fp_from_limbs(x)] };
-    let e: Vec<u8> = Vec::from(&s);
-    assert!(e.len() == 48);
-} }
-#[kani::proof]
-#[kani::unwind(5)]
-fn probe_concat() {
-    let a: [u8; 3] = kani::any();
-    let v = [a.to_vec()].iter().fold(Vec::new(), |acc: Vec<u8>, r| [acc, r.to_vec()].concat());
-    assert!(v.len() == 3);
+
+// ---- star_sharks::Share: canonical re-encoding of every accepted byte string ---------
+fn sharks_canon<const N: usize>() {
+    let b: [u8; N] = kani::any();
+    let r = star_sharks::Share::try_from(&b[..]);
+    if let Ok(s) = &r {
+        let cnt = N / 24;
+        let e: Vec<u8> = Vec::from(s);
+        assert!(e.len() == 24 * cnt, "re-encoding drops only the ignored tail");
+        let mut i = 0;
+        while i < 24 * cnt {
+            assert!(e[i] == b[i], "re-encoding is the canonical prefix of the input");
+            i += 1;
+        }
+        kani::cover!(true, "accepted");
+        core::mem::forget(e);
+    }
+    core::mem::forget(r);
 }
+lens8!(sharks_canon, c08_sharks_canon_24 = 24, c08_sharks_canon_47 = 47, c08_sharks_canon_48 = 48, c08_sharks_canon_50 = 50, c08_sharks_canon_72 = 72);
+
+// ---- adss/sta_rs share: canonical re-encoding for given chunk lengths ----------------
+fn share_canon2<const N: usize>(sn: usize, cn: usize, dn: usize) {
+    let b: [u8; N] = kani::any();
+    // the three length headers say (sn, cn, dn); everything else is arbitrary
+    kani::assume(le32(&b, 4) == sn);
+    kani::assume(le32(&b, 8 + sn) == cn);
+    kani::assume(le32(&b, 12 + sn + cn) == dn);
+    let r = sta_rs::Share::from_bytes(&b[..]);
+    if let Some(s) = &r {
+        let e = s.to_bytes();
+        let sk = 24 * (sn / 24);
+        assert!(e.len() == N - (sn - sk), "only the ignored tail of the Shamir chunk is dropped");
+        let mut i = 0;
+        while i < 4 {
+            assert!(e[i] == b[i], "threshold bytes unchanged");
+            i += 1;
+        }
+        assert!(le32(&e, 4) == sk, "Shamir length prefix adjusted to whole elements");
+        let mut i = 0;
+        while i < sk {
+            assert!(e[8 + i] == b[8 + i], "field elements unchanged");
+            i += 1;
+        }
+        let rest = N - 8 - sn;
+        let mut i = 0;
+        while i < rest {
+            assert!(e[8 + sk + i] == b[8 + sn + i], "C, D, J and their prefixes unchanged");
+            i += 1;
+        }
+        kani::cover!(true, "accepted");
+        core::mem::forget(e);
+    }
+    core::mem::forget(r);
+}
+dec_stubs! { #[kani::unwind(5)] fn c08_share_canon2_24_1_1() { share_canon2::<106>(24, 1, 1) } }
+dec_stubs! { #[kani::unwind(5)] fn c08_share_canon2_50_1_3() { share_canon2::<134>(50, 1, 3) } }
